@@ -77,8 +77,11 @@ _UMUL_I = z3.Function("umul_i", z3.IntSort(), z3.IntSort(), z3.IntSort())
 _UDIV_R = z3.Function("udiv_r", z3.RealSort(), z3.RealSort(), z3.RealSort())
 
 
+_UMUL_MEMO = {}      # ast id -> (expr kept alive, abstracted expr): shared by all obligations of a run (and inherited by forked workers)
+
+
 def abstract_mul(e):
-    cache = {}
+    cache = _UMUL_MEMO
 
     def isnum(x):
         if z3.is_int_value(x) or z3.is_rational_value(x):
@@ -89,7 +92,7 @@ def abstract_mul(e):
     def rec(x):
         k = x.get_id()
         if k in cache:
-            return cache[k]
+            return cache[k][1]
         if z3.is_quantifier(x):
             body = rec(x.body())
             vs = [z3.Const(x.var_name(i), x.var_sort(i)) for i in range(x.num_vars())]
@@ -119,7 +122,7 @@ def abstract_mul(e):
                 r = _UDIV_R(ch[0], ch[1])
             else:
                 r = x.decl()(*ch)
-        cache[k] = r
+        cache[k] = (x, r)
         return r
     return rec(e)
 
